@@ -11,7 +11,10 @@ SPEC = {
              "NodeIDAllocator) by several instances on one store; candidates come from the real random.Int64/String fed by a "
              "scripted crypto/rand.Reader (candidate space of 1-6 ids, so every generation contends); stores: fake-clock double "
              "with and without SetNX, memory, hybrid(memory,memory), redis (miniredis), hybrid(memory per node, shared redis); "
-             "gated wrappers force the schedule (one step = one storage call); exhaustive: 2 threads x 3 ids x all pre-existing "
+             "hybrid without shared cache (the default single-node configuration); IDManager.Release*ID is the release path when "
+             "the default TTL is used; the final markers are cross-checked through a fresh observer node's IDManager.Is*IDUsed; "
+             "candidates include the edges of random.Int64's modulo (0, range-1, range, 2^63, 2^64-1) and the smallest/largest "
+             "8-character ids; gated wrappers force the schedule (one step = one storage call); exhaustive: 2 threads x 3 ids x all pre-existing "
              "subsets x all schedules of length 4/5; random: 1-4 threads, ticks around the marker TTL; exhaustion at "
              "MaxAttempts and at 1000 node slots; single transient storage fault (schedule code 2: the storage call of that step, in "
              "the shared tier for hybrid stores, returns an error): every fault position x every schedule of length 4/5 x "
@@ -47,6 +50,8 @@ SPEC = {
         "fallback-multi-instance; no store built by the server factory lacks SetNX (checked by the caps case)",
         "a Release() retried after a FAILED Release is not driven: on the unchanged code it panics (close of closed stopCh), "
         "which is a robustness defect outside this property",
+        "`strict` corpus cases are judged with a reference live-set that never expires (known finding "
+        "marker-ttl-shorter-than-entity); everything else is judged within the marker lifetime",
         "GenerateUniqueID wrappers (id_manager.go) are compositions of Generate and Release of the own id by one caller and "
         "are covered as such histories; their external checkFunc is not modelled",
     ],
